@@ -260,7 +260,7 @@ RetStep(m, ev) ==
     ELSE IF api \in {"close", "exit"} /\ ~m.closeFault /\ m.alive /\ ev.faulted = 0
             /\ (m.sessions # {} \/ \E i \in 1..Len(m.conns) : m.conns[i].cid \in m.dConns) THEN Bad(m, "C10:target-dirty")
     ELSE IF api \in {"open", "enter"} /\ m.policy # "SessionRefused" /\ ev.faulted = 0 /\ m.alive
-            /\ ~(ev.outcome = "value" /\ ev.connected = 1) /\ ~(m.kind = "logix" /\ m.policy = "AllRefused") THEN Bad(m, IF m.closedOnce THEN "C10:reopen" ELSE "C10:open-failed")
+            /\ ~(ev.outcome = "value" /\ ev.connected = 1) /\ ~(m.kind = "logix" /\ m.policy = "AllRefused") THEN Bad(m, (IF m.closedOnce THEN "C10:reopen" ELSE "C10:open-failed") \o (IF m.lx.on THEN "+C05:upload-failed" ELSE ""))
     ELSE IF api = "generic" THEN
         LET it == m.call.intent  tg == ev.result.tags IN
         IF ev.outcome # "value" THEN (IF m.nIntent = 0 \/ ev.faulted = 1 \/ m.last.k \in {"none", "corrupt"} THEN Good(m) ELSE Bad(m, "C13:exception-on-reply"))
